@@ -91,12 +91,28 @@ def badref_inv(rng):
     return inv, failing
 
 
+def deep_chain_inv(rng):
+    """Many nodes, each resolving long (acyclic) reference chains many times: the depth a resolution has reached
+    belongs to that resolution alone, however many others are in progress on other threads."""
+    inv = G.Inv()
+    ln = rng.randint(36, 56)
+    chain = [(S('l%d' % j), S('${l%d}' % (j + 1))) for j in range(ln)] + [(S('l%d' % ln), rng.choice([I(1), S('end'), L(I(1), I(2))]))]
+    inv.classes[('chain.yml',)] = G.doc([], ['capp'], ('m', chain + [(S('trace'), L(S('chain')))]))
+    for j in range(rng.randint(24, 40)):
+        ps = [(S('p%d' % q), S(rng.choice(['${l0}', '${l3}', 'x-${l1}']))) for q in range(rng.randint(10, 24))]
+        inv.nodes[('%s%02d.yml' % (rng.choice('abz'), j),)] = G.doc(['chain'], [], ('m', ps + [(S('trace'), L(S('NODE')))]))
+    inv.universe.add('chain')
+    return inv, set()
+
+
 def run(tier, rng, C):
     n = 36 if tier == 'quick' else 600
     threads = [1, 2, 3, 4, 8, 16]
     base_cases, lines_all, lines_nodes = [], [], []
     for i in range(n):
-        if i % 5 == 4:
+        if i % 12 == 7:
+            inv, failing = deep_chain_inv(rng)
+        elif i % 5 == 4:
             inv, failing = symlink_inv(rng)
         elif i % 5 == 2:
             inv, failing = selector_inv(rng)
